@@ -50,6 +50,7 @@ class Contract:
         self.frame_check = kw.pop("frame_check", True)
         self.closures = kw.pop("closures", {})  # nested def name -> Contract-like dict
         self.unwind = kw.pop("unwind", None)
+        self.executor = kw.pop("executor", None)  # "template": calls without a contract are uninterpreted functions over Val
         self.may_raise = kw.pop("may_raise", ())  # exception names (or True) that are not obligations of this contract
         self.witness = kw.pop("witness", None)
         self.semantic_prune = kw.pop("semantic_prune", False)  # prune conditional expressions of specs with solver queries  # concrete arguments satisfying `requires` (vacuity guard)
@@ -161,6 +162,7 @@ class World:
         if key in self.fn_index:
             return self.fn_index[key]
         relpath, qual = key.split("::")
+        qual = qual.split("#")[0]  # `fn#case`: several contracts (argument shapes) on one function
         mod, _ = self.module_ast(relpath)
         parts = qual.split(".")
         body, cls = mod.body, None
